@@ -4,7 +4,7 @@
 //! thread on the simulated file system, network, clock and signal source. The harness edits
 //! files, raises SIGHUP, waits until the signal loop is idle again, and observes what is served
 //! *through UDP datagrams on the simulated network* - the property's own observation point.
-use super::c31::{apply_edits, decode_obs, expected, next_model, path_of, query, write_config, Files, Obs, Scn, Served, Step, UNIVERSE};
+use super::c31::{apply_edits, decode_obs, expected, next_model, with_alts, path_of, query, write_config, Files, Obs, Scn, Served, Step, UNIVERSE};
 use crate::args::{RunArgs, ZoneDescription};
 use crate::driver::world_cfg;
 use crate::run as daemon;
@@ -124,7 +124,8 @@ pub fn run(scn: &Scn) {
         }
         let expect_ok = step.config_fault == 0;
         let served_before = served.clone();
-        let served_after = if expect_ok { next_model(&served_before, step, &files) } else { served_before.clone() };
+        let (mut served_after, alts) = if expect_ok { next_model(&served_before, step, &files) } else { (served_before.clone(), BTreeMap::new()) };
+        let served_after_alt = with_alts(&served_after, &alts);
 
         if si == 0 {
             // --- start the daemon ---------------------------------------------------------
@@ -164,8 +165,9 @@ pub fn run(scn: &Scn) {
             if scn.concurrent_queries > 0 {
                 let before: Vec<(Obs, Obs)> = (0..UNIVERSE.len()).map(|z| expected(&served_before, z)).collect();
                 let after: Vec<(Obs, Obs)> = (0..UNIVERSE.len()).map(|z| expected(&served_after, z)).collect();
+                let after_alt: Vec<(Obs, Obs)> = (0..UNIVERSE.len()).map(|z| expected(&served_after_alt, z)).collect();
                 for t in 0..scn.concurrent_queries {
-                    let (before, after, stop) = (before.clone(), after.clone(), stop.clone());
+                    let (before, after, after_alt, stop) = (before.clone(), after.clone(), after_alt.clone(), stop.clone());
                     query_threads.push(shuttle::thread::spawn(move || {
                         let mut c = Client::new(1 + t + 8 * si);
                         for round in 0..2 {
@@ -181,7 +183,7 @@ pub fn run(scn: &Scn) {
                                 // the reload is complete once the signal loop has gone idle again
                                 let done_stamp = stop.load(SeqCst);
                                 let fresh = done_stamp != 0 && invoked > done_stamp;
-                                let ok = got == after[z].0 || (!fresh && got == before[z].0);
+                                let ok = got == after[z].0 || got == after_alt[z].0 || (!fresh && got == before[z].0);
                                 if got == before[z].0 && before[z].0 != after[z].0 {
                                     simrt::probe("c31_concurrent_query_saw_old_state");
                                 }
@@ -224,6 +226,15 @@ pub fn run(scn: &Scn) {
                 }
             } else {
                 simrt::probe("c31_reload_failed_as_a_whole");
+            }
+        }
+        // a zone the loader may skip or reload: find out which it did, and go on from there
+        for (z, a) in &alts {
+            let (zname, class) = UNIVERSE[*z];
+            let (got, _) = client.ask(&format!("marker.{zname}"), wire::T_TXT, class);
+            if got == expected(&served_after_alt, *z).0 && got != expected(&served_after, *z).0 {
+                served_after.insert(*z, a.clone());
+                simrt::probe("c31_unchanged_zone_was_reloaded");
             }
         }
         served = served_after;
